@@ -28,19 +28,10 @@ def run(ctx: Ctx):
             kinds[k] = kinds.get(k, 0) + 1
         for cl in jr.verdicts[i]:
             if cl.startswith('C15_'):
-                bad = [(v['kind'], v['kept']) for v in c['variants'] if v['clause_kept'] == cl and v['kept'] != c['ref']['kept']]
-                # known finding F08d: the two selections differ only by quantitative features whose recomputed
-                # correlation distance is ~0 (the library treats an exact 0.0 as undefined, and whether the
-                # floating-point value is exactly 0.0 depends on the order of the rows / columns)
-                diff = set()
-                for _, kept in bad:
-                    diff |= set(kept) ^ set(c['ref']['kept'])
-                zero_only = bool(diff) and all(0 < f <= len(c['tie_m']) and c['tie_g'][f - 1] == 1 and 0 <= c['tie_m'][f - 1] <= 3 for f in diff)
+                bad, sig = sc.reencode_sig(c, cl)
                 ctx.violations.append(Violation(
                     clause=cl, what=f'{c["id"]} ({c["meta"]["task"]}, {c["meta"]["measures"]}): original selection {c["ref"]["kept"]}; after re-encoding: {bad[:3]}',
-                    sig={'driver': 'selector.reencode_case', 'clause': cl, 'task': c['meta']['task'], 'measures': c['meta']['measures'],
-                         'default_regression_quantitative': c['meta']['default_regression_quantitative'],
-                         'differs_only_by_zero_distance_features': zero_only and c['meta']['default_regression_quantitative']}, replay=c['meta']))
+                    sig=sig, replay=c['meta']))
     ctx.notes['variants_per_kind'] = kinds
     sc.select_cases(ctx, ['C15_'], 400, 4000)
 
